@@ -37,7 +37,8 @@ QUICK = dict(
     altnums=["first", "last", "next", "zero", "word"],
     fshapes=["std", "empty", "prose", "leadblank", "nodate", "tz", "nosec", "daemon", "extra", "glued", "extra2", "lower", "gt", "eight"],
     dshapes=["full", "notmp", "curonly", "newonly", "newfile", "plain"],
-    fes=["G", "P", "D", "H", "M"], fams=["folder", "fronts", "order", "flav", "num", "recog"], hls=["default"],
+    fes=["G", "P", "D", "H", "M"], fams=["folder", "fronts", "order", "flav", "num", "recog"],
+    hls=[("default", None)],            # (handler list of harness/world.py, families run under it: None = all)
 )
 THOROUGH = dict(QUICK)
 THOROUGH.update(
@@ -45,9 +46,9 @@ THOROUGH.update(
                             K("enc", "text", "lf", "daemon"), K("long", "nonl", "lf", "nosec")],
     maxall=2,
     small=QUICK["small"] + [K("fold", "text"), K("plain", "rawfrom")], maxsmall=4,
-    fplaces=["alt", "new", "cur"], fords=["asc", "rot"], oplaces=["new", "cur", "alt"],
-    ordpairs=[("asc", "desc"), ("asc", "rot"), ("rot", "desc")],
-    numsizes=[0, 1, 2, 4], hls=["default", "full"],
+    fplaces=["alt", "new"], fords=["asc", "rot"], oplaces=["new", "cur", "alt"],
+    ordpairs=[("asc", "desc"), ("asc", "rot")],
+    numsizes=[0, 1, 2, 4], hls=[("default", None), ("full", ["flav", "num", "recog"])],
 )
 TIERS = {"quick": QUICK, "thorough": THOROUGH}
 WITNESS = dict(QUICK, kinds=[K("plain", "text"), K("nohdr", "text"), K("plain", "text", "lf", "eight")], maxall=2, small=[K("plain", "text")],
@@ -537,6 +538,44 @@ def make_traces(site, hl, case, fes):
     return out
 
 
+_SITE = None
+
+
+def _pool_init(hl):
+    global _SITE
+    _SITE = Site(hl)
+
+
+def _pool_task(arg):
+    hl, fes, chunk = arg
+    import traceback
+    try:
+        before = (_SITE.hook_calls, _SITE.requests)
+        out = [make_traces(_SITE, hl, case, fes) for case in chunk]
+        return ("ok", out, _SITE.hook_calls - before[0], _SITE.requests - before[1], sorted(_SITE.enumerations))
+    except BaseException:          # a worker must always answer (a raising task can hang pool.map)
+        return ("err", traceback.format_exc())
+
+
+def run_cases(hl, fes, cases, procs):
+    """Every case on the real server, in worker processes that each own one World; results in case order."""
+    import multiprocessing as mp
+    size = max(1, (len(cases) + procs * 6 - 1) // (procs * 6))
+    chunks = [cases[i:i + size] for i in range(0, len(cases), size)]
+    ctx = mp.get_context("fork")
+    with ctx.Pool(min(procs, len(chunks)), initializer=_pool_init, initargs=(hl,)) as pool:
+        try:
+            res = pool.map_async(_pool_task, [(hl, fes, ch) for ch in chunks], chunksize=1).get(timeout=3000)
+        except mp.TimeoutError:
+            pool.terminate()
+            raise core.MachineryError("worker pool timed out")
+    bad = [r[1] for r in res if r[0] != "ok"]
+    if bad:
+        raise core.MachineryError("worker failed:\n" + bad[0])
+    per_case = [trs for r in res for trs in r[1]]
+    return per_case, sum(r[2] for r in res), sum(r[3] for r in res), set(o for r in res for o in r[4])
+
+
 def validate(t, traces):
     files = {"MC_XMBOX_consts.tla": consts_module(t), "TraceXMBOX_run.cfg": cfg_text(t, True)}
     return tlc.validate_traces("TraceXMBOX", "TraceXMBOX_run.cfg", traces, extra_files=files, timeout=1500, chunk=2500)
@@ -548,8 +587,16 @@ def validate_parallel(t, traces, procs):
     n = max(1, min(procs, (len(traces) + 799) // 800))
     size = (len(traces) + n - 1) // n
     slices = [(i, traces[i:i + size]) for i in range(0, len(traces), size)]
-    with ThreadPoolExecutor(max_workers=n) as ex:
-        parts = list(ex.map(lambda s: (s[0], validate(t, s[1])), slices))
+    saved = os.environ.get("VERIF_TLC_XMX")
+    os.environ["VERIF_TLC_XMX"] = os.environ.get("VERIF_TRACE_XMX", "3g")      # trace validation needs little heap
+    try:
+        with ThreadPoolExecutor(max_workers=n) as ex:
+            parts = list(ex.map(lambda s: (s[0], validate(t, s[1])), slices))
+    finally:
+        if saved is None:
+            os.environ.pop("VERIF_TLC_XMX", None)
+        else:
+            os.environ["VERIF_TLC_XMX"] = saved
     tv = {"accepted": 0, "rejected": [], "states": 0, "generated": 0, "wall_s": 0.0, "cmd": "", "drift": []}
     for off, p in parts:
         tv["accepted"] += p["accepted"]
@@ -657,8 +704,12 @@ def main(chk, replay=None):
         cov.update(traces_validated_against_impl=tv["accepted"], evaluations=len(trs), exhaustive=False)
         return chk.finish(cov, ["replay of one stored case"])
 
+    import time
+    t0 = time.time()
     wit = witness(chk)
+    t1 = time.time()
     res, cases = model_check(chk, t)
+    cov["phase_s"] = {"witness": round(t1 - t0, 1), "model_check": round(time.time() - t1, 1)}
     if not cases and chk.violations:
         cov["exhaustive"] = False
         return chk.finish(cov, ["the bounded model violates an invariant; no replay"])
@@ -667,18 +718,16 @@ def main(chk, replay=None):
                   "files_served_as_files": 0, "info_blocks": 0}
     drift = []
     first = None
-    for hl in t["hls"]:
-        site = Site(hl)
+    for hl, hfams in t["hls"]:
+        t2 = time.time()
+        mine = [case for case in cases if hfams is None or case["fam"] in hfams]
+        per_case, hooks, nreq, enums = run_cases(hl, t["fes"], mine, procs)
         traces, owners = [], []
-        try:
-            for case in cases:
-                for tr in make_traces(site, hl, case, t["fes"]):
-                    traces.append(tr)
-                    owners.append(case)
-                cov["per_family"][case["fam"]] = cov["per_family"].get(case["fam"], 0) + 1
-            hooks, enums, nreq = site.hook_calls, set(site.enumerations), site.requests
-        finally:
-            site.close()
+        for case, trs in zip(mine, per_case):
+            for tr in trs:
+                traces.append(tr)
+                owners.append(case)
+            cov["per_family"][case["fam"]] = cov["per_family"].get(case["fam"], 0) + 1
         for tr in traces:
             fam = tr["init"]["fam"]
             for ev in tr["events"]:
@@ -697,13 +746,20 @@ def main(chk, replay=None):
         nontrivial["reordered_enumerations"] += len(enums)
         if hooks == 0:
             raise core.MachineryError("the substituted os.listdir never saw cur/ or new/ of a Maildir")
+        t3 = time.time()
         tv = validate_parallel(t, traces, procs)
+        cov["phase_s"]["real_runs_" + hl] = round(t3 - t2, 1)
+        cov["phase_s"]["trace_validation_" + hl] = round(time.time() - t3, 1)
         cov["traces_validated_against_impl"] += tv["accepted"]
         cov["evaluations"] += len(traces)
-        cov["runs"].append({"handlers": hl, "cases": len(cases), "traces": len(traces), "requests": nreq, "listdir_hook_calls": hooks,
+        cov["runs"].append({"handlers": hl, "cases": len(mine), "traces": len(traces), "requests": nreq, "listdir_hook_calls": hooks,
                             "tlc_states": res["distinct"], "tlc_wall_s": res["wall_s"], "trace_states": tv["states"], "trace_wall_s": tv["wall_s"]})
         rejected = set()
-        for rj in tv["rejected"]:
+        rank = {}                          # one of every (clause, family, front end) first: only the first 100 get a replay file
+        for rj in sorted(tv["rejected"], key=lambda z: z["index"]):
+            g = (rj["clause"], traces[rj["index"]]["init"]["fam"], traces[rj["index"]]["init"]["fe"])
+            rank[g] = rj["rank"] = rank.get(g, 0) + 1
+        for rj in sorted(tv["rejected"], key=lambda z: (z["rank"], z["index"])):
             case, tr = owners[rj["index"]], traces[rj["index"]]
             rejected.add(rj["index"])
             if rj["clause"] in MACHINERY:
@@ -712,13 +768,19 @@ def main(chk, replay=None):
             chk.violation(tr["id"] + "|" + rj["clause"], rj["clause"], dict(flat_case(hl, case, fe), clause=rj["clause"]),
                           {"tier": chk.tier, "hl": hl, "fe": fe, "case": case, "at": rj["at"], "trace": tr})
         drift += [dict(d, hl=hl) for d in tv["drift"]]
+        if os.environ.get("XMBOX_DUMP"):          # development aid: every rejection / drift with its trace
+            with open(os.environ["XMBOX_DUMP"], "w") as fp:
+                json.dump({"rejected": [{"clause": rj["clause"], "at": rj["at"], "trace": traces[rj["index"]]} for rj in tv["rejected"]],
+                           "drift": [dict(d, trace=traces[d["index"]]) for d in tv["drift"]]}, fp)
         if first is None:
             first = (traces, [i for i in range(len(traces)) if i not in rejected])
             cov["samples"] = [{"id": z["id"][:300], "events": z["events"][:3]} for z in traces[:: max(1, len(traces) // 5)][:5]]
     chk.note_drift(drift)
     if min(nontrivial.values()) == 0:
         raise core.MachineryError("vacuous run: %r" % nontrivial)
+    t4 = time.time()
     n, bad = selftest(t, first[0], first[1])
+    cov["phase_s"]["selftest"] = round(time.time() - t4, 1)
     if bad and not chk.violations:
         raise core.MachineryError("selftest: corrupted traces not rejected as expected: %r" % bad)
     cov["selftest_corrupted_traces_rejected"] = n - len(bad)
